@@ -168,7 +168,8 @@ class C12(CheckBase):
         lens = lens_for(d)
         if op.kind == "Decrypt" and d["fam"] == "cipher":
             lens = [l for l in lens]
-        if not op.updated:
+        # (a cipher operation that has been fed with Update calls still accepts the single-part call for the rest: the library does not switch that off)
+        if not op.updated or (d["fam"] == "cipher" and op.kind in ("Encrypt", "Decrypt")):
             for l in lens:
                 for sh_ in (SHAPES if op.kind != "Verify" else ["exact"]):
                     acts.append(("single", l, sh_))
@@ -336,6 +337,8 @@ class C12(CheckBase):
                     total_in = (pat(0, op.fed) + data) if kind != "Decrypt" else (op.stream or b"")[:op.fed] + data
                     if not op.updated:
                         self.judge_complete(ctx, m, op, kind, total_in, op.out + out, a)
+                    # (after Update calls the single-part call is outside what PKCS#11 defines: its output is not judged, only the length protocol -
+                    # nothing written beyond the announced or reported length - which call_out has already checked)
                     m.op = None
                 else:
                     op.fed += n; op.out += out; op.updated = True; op.fed_calls += 1
